@@ -25,7 +25,7 @@ from ..report import Report
 
 BACKENDS = ['default', 'torch', 'jax', 'fortran']
 SOLVERS = ['euler', 'heun', 'scipy', 'diffrax', 'rk4', 'Euler', 'scipy_dde']
-DELAYS = ['none', 'discrete', 'spread', 'past']
+DELAYS = ['none', 'discrete', 'spread', 'past', 'discrete+spread', 'spread+discrete']
 ENV_ERRORS = ('f2py compilation', 'meson')
 
 
@@ -44,6 +44,13 @@ def base_spec(delay_kind):
     elif delay_kind == 'spread':
         kw = dict(delay=F(1, 2), spread=F(1, 4))
     edges = [EdgeSpec('n0/li/x', 'n1/li/u', F(3, 2), **kw), EdgeSpec('n1/li/x', 'n0/li/u', F(5, 4))]
+    if '+' in delay_kind:
+        # two delayed edge groups in one network: a ring buffer and a gamma-kernel chain, in either node order
+        k1, k2 = delay_kind.split('+')
+        kws = dict(discrete=dict(delay=F(1, 2)), spread=dict(delay=F(1, 2), spread=F(1, 4)))
+        nodes['n2'] = NodeSpec(['li'], {('li', 'x'): fp()})
+        edges = [EdgeSpec('n0/li/x', 'n1/li/u', F(3, 2), **kws[k1]), EdgeSpec('n1/li/x', 'n2/li/u', F(5, 4), **kws[k2]),
+                 EdgeSpec('n2/li/x', 'n0/li/u', F(7, 4))]
     return ModelSpec('m', {'li': op}, nodes, edges)
 
 
@@ -68,7 +75,7 @@ def expected_class(backend, solver, vectorize, delay, sparse=False, jac=False):
     if solver not in cls.SUPPORTED_SOLVERS:
         return 'raises'
     fixed = solver in ('euler', 'heun')
-    if delay == 'discrete' and fixed and not cls.SUPPORTS_EDGE_DELAY_BUFFER:
+    if 'discrete' in delay and fixed and not cls.SUPPORTS_EDGE_DELAY_BUFFER:
         return 'raises'
     return 'returns'
 
